@@ -54,6 +54,26 @@ CHECKS = {
             "Generated-input search over (stream, partition): every partition of each generated stream must give the same entries as the one-call write and the model; for a malformed entry the failing write, its error kind and the entries collected so far are checked for every partition.",
             "Trusts M-summary for the expected entries; doubled blank lines (empty entries) are outside the generated domain.",
             "pbt"),
+    "C10": ("DESIGN.md section 4 / C10",
+            "property-based round-trip testing (parse->write identity on canonical files, API->write->parse) against reference model M-distinfo, byte-level name generator",
+            "Generated-input search: canonical distinfo files with names over arbitrary non-whitespace bytes (weighted to >= 0x80, C3 A0 / C3 85 / lone E9 / A0 / 85 / FF) must survive parse->write byte for byte; API-assembled documents must write the canonical layout and parse back to the same values.",
+            "Trusts M-distinfo.print/classify (self-checked); names whose basename and whole name classify differently are outside the domain.",
+            "pbt"),
+    "C11": ("DESIGN.md section 4 / C11",
+            "property-based differential testing against the line-level model M-distinfo over interleaved well-formed lines mixed with injected noise lines",
+            "Generated-input search: shuffled checksum/size lines of 1-5 files with varying blanks, leading blanks and algorithm case, mixed with comments, unknown algorithms, bad sizes, garbage and truncated lines; the parsed maps must equal the model's (order, checksums, sizes, patch/distfile split) and contain nothing else.",
+            "Trusts M-distinfo.parse (self-checked); lines that a liberal parser may accept (wrong separator instead of '=') are outside the domain.",
+            "pbt"),
+    "C12": ("DESIGN.md section 4 / C12",
+            "property-based testing with injected corruptions against independent digest implementations (M-hash) on real scratch files",
+            "Generated-input search: for generated file contents and recorded entries (correct or with single-byte / single-digit / length corruptions, decoys sharing a path tail) every verification entry point is compared with the model for all six algorithms, including the payload of the errors.",
+            "Trusts M-hash (six algorithms re-implemented from their specifications, test vectors checked at start) and the scratch file system.",
+            "pbt"),
+    "C13": ("DESIGN.md section 4 / C13",
+            "property-based differential testing against M-hash over generated inputs x generated read schedules with injected Interrupted and hard I/O errors; enumeration of name case variants",
+            "Generated-input search over (bytes, read schedule): lengths at block boundaries, patch texts with markers at the buffer edge, 1-byte / short / large reads, Interrupted at any point, one hard error at any read before EOF; digests must equal independent implementations of the six standards, errors must be returned.",
+            "Trusts M-hash (test vectors at start, cross-checked against Python hashlib during development).",
+            "pbt"),
     "C14": ("DESIGN.md section 4 / C14",
             "property-based differential testing against a line-level reference model (M-plist) over generated byte documents, shrinking",
             "Generated-input search: documents of generated lines (one- and two-byte file names, every command with every argument shape, unknown commands, blank lines, raw bytes) are parsed and compared line by line and as a whole entry list with an independent model. Exploration of documents of <= 30 lines.",
